@@ -463,6 +463,10 @@ func (r *errorReader) itf8slice() []int32 {
 	if n == 0 {
 		return nil
 	}
+	if n < 0 {
+		r.err = fmt.Errorf("cram: invalid array length: %d", n)
+		return nil
+	}
 	s := make([]int32, n)
 	for i := range s {
 		s[i] = r.itf8()
